@@ -3,10 +3,11 @@ M = COMMON["MEMCHECKS"]
 HARNESSES = [
     COMMON["dec12"]("record12_mem", [], COMMON["dec12_cases"](64, 40, dtls_only=("dtls10", "dtls12n")) + COMMON["dec12_cases"](96, 56, tier="thorough"), checks=M),
     COMMON["dec13"]("record13_mem", [], ns=((48, "quick"), (96, "thorough")), checks=M),
+    COMMON["api_recv"](only=None),
 ]
 PROPERTY = dict(level='model_checking',
     claim="CBMC's memory-safety instrumentation (bounds, pointer, div-by-zero, shift) on the real record decoders for every input within the bound from every RI-state; every loop has a checked unwinding bound (termination within the bound).",
     bounds='as C01 (64/40/48-byte inputs)',
-    outside='handshake message parsers, DTLS fragment reassembly, API buffer management are not yet encoded; signed-overflow idioms; uninitialised reads',
+    outside='handshake message parsers and DTLS fragment reassembly are not yet encoded; API buffers above the scaled bound (see C18); signed-overflow idioms; uninitialised reads',
     explanation="CBMC's memory-safety instrumentation (bounds, pointer, div-by-zero, shift) on the real record decoders for every input within the bound from every RI-state; every loop has a checked unwinding bound (termination within the bound).",
     assumptions=[])
